@@ -81,6 +81,8 @@ pub struct World {
     /// every cw20 token contract in play (incl. LP tokens)
     pub tokens: Vec<Addr>,
     pub owner: Addr,
+    /// CreatePair spells cw20 addresses in upper case (a valid spelling of the same address)
+    pub spell_upper: bool,
 }
 
 /// Outcome of a top-level message
@@ -342,6 +344,7 @@ impl World {
             accounts: vec![("owner".into(), owner.clone())],
             denoms: vec![],
             tokens: vec![],
+            spell_upper: false,
             owner,
         }
     }
@@ -661,7 +664,11 @@ impl World {
             &self.owner.clone(),
             factory,
             &pool_network::factory::ExecuteMsg::CreatePair {
-                asset_infos: [assets[0].info(), assets[1].info()],
+                asset_infos: {
+                    let sp = |a: &A| match a.info() {
+                        pool_network::asset::AssetInfo::Token { contract_addr } if self.spell_upper => pool_network::asset::AssetInfo::Token { contract_addr: contract_addr.to_uppercase() },
+                        x => x };
+                    [sp(assets[0]), sp(assets[1])] },
                 pool_fees: fees,
                 pair_type,
                 token_factory_lp: false,
